@@ -66,6 +66,9 @@ def inits():
     out = [{"birth_range": list(b), "pers_range": list(p), "pixel_size": s}
            for b, p, s in itertools.product(RANGES, RANGES, PIXELS)]
     out.append({})
+    # imagers with a built-in weight that is zero below a persistence threshold
+    out += [{"weight": "ramp"}, {"weight": "ramp", "ramp_start": 0.95, "pixel_size": 0.3}, {"weight": "ramp", "birth_range": [0, 1], "pers_range": [-0.5, 0.7], "pixel_size": 0.2},
+            {"weight": "ramp", "ramp_start": 1.6, "birth_range": [0.1, 0.8], "pers_range": [0, 0.3], "pixel_size": 0.1}]
     # asymmetric high-resolution states (tens of pixels along one axis only)
     out += [{"birth_range": [0, 0.3], "pers_range": [0, 1], "pixel_size": 0.025},
             {"birth_range": [-0.5, 0.7], "pers_range": [0.1, 0.8], "pixel_size": 0.0125},
@@ -95,6 +98,11 @@ def make(init):
         kw["pers_range"] = tuple(init["pers_range"])
     if "pixel_size" in init:
         kw["pixel_size"] = init["pixel_size"]
+    if init.get("weight") == "ramp":
+        # a weight that vanishes on part of the plane (persistence below `start`): what a fit has to cover is
+        # still every fitted point, whatever weight it will get
+        return PersistenceImager(weight="linear_ramp", weight_params={"low": 0.0, "high": 1.0, "start": init.get("ramp_start", 0.5), "end": 2.0},
+                                 kernel_params={"sigma": SIGMA_STD ** 2}, **kw)
     return PersistenceImager(weight=unit_weight, weight_params={}, kernel_params={"sigma": SIGMA_STD ** 2}, **kw)
 
 
@@ -147,6 +155,15 @@ def invariant(ctx, im, where, first_level=True):
     probe.add((n0 // 2, n1 // 2))
     probe = sorted(probe)
     pts = np.array([[g["birth_range"][0] + (i + 0.5) * px, g["pers_range"][0] + (j + 0.5) * px] for i, j in probe])
+    saved_w = (im.weight, im.weight_params)
+    im.weight, im.weight_params = unit_weight, {}      # the probe needs unit weights; the imager's own weight is restored below
+    try:
+        return _probe(ctx, im, g, px, n0, n1, probe, pts, bad, ok, first_level)
+    finally:
+        im.weight, im.weight_params = saved_w
+
+
+def _probe(ctx, im, g, px, n0, n1, probe, pts, bad, ok, first_level):
     img = np.asarray(ctx.call(im.transform, pts, skew=False))
     ctx.valid()
     if img.shape != (n0, n1):
